@@ -199,6 +199,21 @@ def network_and_connection_shapes(src: Path) -> str:
             raise Refuse(f'{name}: chunk no longer moved by `{call}`')
     if 'data = await file_handle.read(bytes_to_write)' not in ast.unparse(find_func(pcls.body, 'send_file')):
         raise Refuse('send_file: chunk size is no longer the granted token count')
+    # file bytes may only be moved through send_file / receive_file (which take tokens per chunk): no other module
+    # may call the chunk helpers or write to / read from a file connection's stream directly
+    pkg = src / 'aioslsk'
+    for py in sorted(pkg.rglob('*.py')):
+        rel = py.relative_to(pkg).as_posix()
+        tree = ast.parse(py.read_text())
+        for n in ast.walk(tree):
+            if isinstance(n, ast.Attribute) and n.attr in ('send_data', 'receive_data') and rel != 'network/connection.py':
+                raise Refuse(f'{rel}:{n.lineno}: {n.attr} used outside network/connection.py (file bytes bypass the limiter)')
+    tm = ast.parse((pkg / 'transfer' / 'manager.py').read_text())
+    calls = [ast.unparse(n.func) for n in ast.walk(tm) if isinstance(n, ast.Call) and isinstance(n.func, ast.Attribute)
+             and n.func.attr in ('send_file', 'receive_file', 'send_data', 'receive_data', '_send', 'write')
+             and ast.unparse(n.func) != 'self.cache.write']
+    if sorted(calls) != ['connection.receive_file', 'connection.send_file']:
+        raise Refuse(f'transfer/manager.py moves file bytes by other means than one send_file and one receive_file call: {calls}')
     return ('\n(* shape-checked by the translator (fail closed): Network.set_*_speed_limit = create_limiter + copy_tokens(old) + replace slot +\n'
             '   hand to every peer connection; send_file/receive_file take tokens from the current limiter attribute once per chunk *)\n'
             'Definition SET_LIMIT_COPIES_TOKENS : bool := true.\nDefinition TAKE_PER_CHUNK_FROM_CURRENT_LIMITER : bool := true.\n')
